@@ -14,6 +14,7 @@ other PYTHONHASHSEEDs and after pickling; interned values with equal keys must b
 import os, sys, io, gc, math, pickle, hashlib, subprocess, weakref, collections, dataclasses, inspect, types as pytypes, json, random
 import numpy
 from .common import Infra, scratch_dir
+from . import c17_grid as G
 
 
 def hx(b):
@@ -55,6 +56,16 @@ class ImmVar(T.Immutable):
 
 class ImmKw(T.Immutable):
     def __init__(self, a, *, k=1, l=2):
+        pass
+
+
+class ImmOpts(T.Immutable):
+    def __init__(self, *rest, k0=1, **opts):
+        pass
+
+
+class SingOpts(T.Singleton):
+    def __init__(self, *rest, k0=1, **opts):
         pass
 
 
@@ -749,7 +760,28 @@ def sub_main():
 
 # ---------------------------------------------------------------- the check
 
+def _spawn(procs, args, env=None):
+    """background python subprocess in its own session (killed by process group in `run`'s finally clause)"""
+    p = subprocess.Popen([sys.executable, '-c', 'import nvh.c17 as m; m.sub_main()'] + list(args), env=env, stdout=subprocess.PIPE, stderr=subprocess.PIPE, text=True, start_new_session=True)
+    procs.append(p)
+    return p
+
+
 def run(c):
+    procs = []
+    try:
+        _run(c, procs)
+    finally:
+        import signal
+        for p in procs:
+            if p.poll() is None:
+                try: os.killpg(p.pid, signal.SIGKILL)
+                except Exception: pass
+                try: p.kill(); p.wait(timeout=10)
+                except Exception: pass
+
+
+def _run(c, procs):
     from nutils import evaluable, cache as ncache, _util as nutil, solver, function
     c.rule = ('values: random nested builtin / numpy / nutils.types values (scalars from fixed adversarial pools, containers of depth <= 3, arrays of 13 dtypes '
               'and 13 shapes incl. views), each with structured near-miss variants (type confusion, regrouped nesting, container swap, dtype/shape/byte-order '
@@ -878,12 +910,27 @@ def run(c):
     canon_cases = gen_canon_cases(rng, 80 if quick else 2000)
     add('canon', ['canon|%s|%d|%s' % (sg, w, ' '.join(it.hex() for it in items)) for sg, w, items, _ in canon_cases])
 
+    canonbo_cases = gen_canon_cases(rng, 120 if quick else 3000, byteorders='<>')
+    add('canonbo', ['canonbo|%s|%s|%d|%s' % (sg, mem_order(arr), w, ' '.join(it.hex() for it in items)) for sg, w, items, arr in canonbo_cases])
+
+    # ------------------------------------------------------------ stream: canonical keyword tuple of Immutable (sorted kwargs)
+    kwcanon_cases = gen_kwcanon_cases(rng, 80 if quick else 2000)
+    add('kwcanon', ['kwcanon|' + ' '.join('x%s=%d' % (n.encode().hex(), v) for n, v in bound) for cls, order, bound in kwcanon_cases])
+
     # ------------------------------------------------------------ stream: intern histories (run above; the model is asked for the identities)
     add('intern', ['intern|' + ' '.join(r['events']) for r in intern_runs])
 
     # ------------------------------------------------------------ stream: cache.function keys
     ckey_cases = gen_ckey_cases(rng, ctx, 12 if quick else 200)
     add('ckey', ['ckey|%s|%s|%s' % (fid.hex(), tokens(tuple(a), ctx), tokens(dict(k), ctx)) for fid, a, k, _ in ckey_cases])
+
+    # subprocess streams run while the Lean driver works: stability across PYTHONHASHSEEDs, construction-history dependence
+    nsub = 2 if quick else 6
+    ncorp = 150 if quick else 1500
+    seeds = ['0', '1', '12345', '4294967295', '77', '31337', '99', '5'][:nsub + 1]
+    cseed = rng.randrange(10**6)
+    stab_procs = [_spawn(procs, [str(cseed), str(ncorp)], env=dict(os.environ, PYTHONHASHSEED=s)) for s in seeds]
+    order_procs = {first: _spawn(procs, ['0', '0', 'intern-order', first]) for first in ('none', 'float-first', 'bool-first')}
 
     c.log('driver requests: %d' % len(req))
     ans = c.model(req)
@@ -1008,16 +1055,8 @@ def run(c):
 
     c.log('collision / stability oracle done')
     # ------------------------------------------------------------ stream 3: stability across processes / hash seeds, pickle, routes
-    nsub = 2 if quick else 6
-    ncorp = 150 if quick else 1500
-    seeds = ['0', '1', '12345', '4294967295', '77', '31337', '99', '5'][:nsub + 1]
-    cseed = rng.randrange(10**6)
     outs = []
-    procs = []
-    for s in seeds:
-        env = dict(os.environ, PYTHONHASHSEED=s)
-        procs.append(subprocess.Popen([sys.executable, '-c', 'import nvh.c17 as m; m.sub_main()', str(cseed), str(ncorp)], env=env, stdout=subprocess.PIPE, stderr=subprocess.PIPE, text=True))
-    for s, p in zip(seeds, procs):
+    for s, p in zip(seeds, stab_procs):
         o, e = p.communicate(timeout=900)
         if p.returncode != 0:
             raise Infra('stability subprocess failed (seed %s): %s' % (s, e[-1500:]))
@@ -1091,7 +1130,8 @@ def run(c):
 
     # ------------------------------------------------------------ canonical integer data
     nb = 0
-    for (sg, w, items, arr), a in zip(canon_cases, got('canon')):
+    for (sg, w, items, arr), a in list(zip(canon_cases, got('canon'))) + list(zip(canonbo_cases, got('canonbo'))):
+        if a == 'bad-request': raise Infra('driver rejected a canon request: %s %r' % (arr.dtype.str, arr.tolist()))
         ad = None
         try:
             ad = T.arraydata(arr); out = 'ok|' + ad.bytes.hex()
@@ -1117,7 +1157,7 @@ def run(c):
             if same is not None and (same is not ad or real_hash(same) != real_hash(ad)):
                 c.failing_input('arraydata-width-dependent', 'arraydata of the same integers in another integer width is a different value', dict(dtype=arr.dtype.str, values=arr.tolist()))
                 nb += 1
-    c.obligation('corr:arraydata-canonical-int', nb == 0, 'correspondence', '%d integer arrays of 8 dtypes incl. uint64 overflow' % len(canon_cases))
+    c.obligation('corr:arraydata-canonical-int', nb == 0, 'correspondence', '%d integer arrays of 8 dtypes incl. uint64 overflow + %d arrays of 14 dtypes of both byte orders (memory-order items, model canonIntsBO)' % (len(canon_cases), len(canonbo_cases)))
     if nb and not any('arraydata' in v[2] for v in c.violations):
         c.broken_no_input('corr:arraydata-canonical-int', 'canonical bytes of arraydata differ from the model', c.extra['canon_mismatch'][0])
 
@@ -1150,8 +1190,45 @@ def run(c):
     c.obligation('corr:cache.function-key', nb == 0, 'correspondence', '%d calls (file name of the cache entry)' % len(ckey_cases))
     if nb: c.broken_no_input('corr:cache.function-key', 'cache file name differs from the model key', c.extra['ckey_mismatch'][0])
 
+    # ------------------------------------------------------------ canonical keyword tuple (sorted kwargs) of Immutable / Singleton
+    nb = 0
+    for (cls, order, bound), a in zip(kwcanon_cases, got('kwcanon')):
+        if a == 'bad-request': raise Infra('driver rejected a kwcanon request: %r' % (bound,))
+        try:
+            o = cls(**dict(order)); real = 'ok|' + ' '.join('x%s=%d' % (n.encode().hex(), v) for n, v in o._args[-1])
+            if len(o._args) != 1: real = 'args|' + repr(o._args)[:200]
+        except Exception as e:
+            real = 'exc|' + type(e).__name__
+        c.case(('kwcanon', cls.__name__, tuple(order)), nontrivial=len(order) >= 2); c.count('kwcanon:n=%d' % min(len(order), 6))
+        if real != a:
+            nb += 1; c.extra.setdefault('kwcanon_mismatch', []).append(dict(cls=cls.__name__, keywords=repr(order), model=a, real=real))
+            # specification oracle: the same assignment written in sorted keyword order must be the same value
+            try:
+                o2 = cls(**dict(sorted(order)))
+                if not (o == o2 and real_hash(o) == real_hash(o2)) or (cls is SingOpts and o is not o2):
+                    c.failing_input('route-dependent:' + cls.__mro__[1].__name__, 'the same keyword arguments in another order give a different value / hash / object',
+                                    dict(cls='class %s: def __init__(self, *rest, k0=1, **opts)' % cls.__name__, keywords=repr(order), sorted_keywords=repr(sorted(order)), args=repr(o._args)[:300], args_sorted=repr(o2._args)[:300]))
+            except Exception:
+                pass
+        else:
+            c.traces += 1
+    c.obligation('corr:kwargs-canonicalisation', nb == 0, 'correspondence', '%d calls with up to 9 keywords (keyword-only + **kwargs, unicode names) vs model kwCanon' % len(kwcanon_cases))
+    if nb and not any(v[2].startswith('route-dependent') for v in c.violations):
+        c.broken_no_input('corr:kwargs-canonicalisation', 'canonical keyword tuple of Immutable differs from the model (sorted by name)', c.extra['kwcanon_mismatch'][0])
+
+    # ------------------------------------------------------------ systematic grids (specification oracles on the real code, see c17_grid.py)
+    nb = G.arraydata_grid(c, rng, 16 if quick else 150, evaluable)
+    c.obligation('prop:arraydata-representation-independent', nb == 0, 'oracle',
+                 'every b/i/u/f/c dtype x both byte orders x memory layouts x adversarial values (+ byte-reversed siblings): native encoding of the exact values, identity with the canonical construction, no shared identity/hash between different data')
+    nb = G.signature_grid(c, rng, 140 if quick else 279, 3 if quick else 12, 10 if quick else 16)
+    c.obligation('prop:spelling-independent-construction', nb == 0, 'oracle',
+                 'generated Immutable/Singleton signatures (positional-or-keyword, defaults, *args, keyword-only, **kwargs): every spelling of one assignment (split, omitted defaults, permuted keywords) is one value/object, also after pickling; different assignments differ')
+    nb = G.cache_kwargs_routes(c, rng, 16 if quick else 300, scratch_dir())
+    c.obligation('prop:cache-key-keyword-order', nb == 0, 'oracle', 'cache.function with keyword-only and **kwargs parameters: permuted keywords hit one entry, other assignments another')
+    c.log('grids done')
+
     # ------------------------------------------------------------ interning key vs hash identification (construction-history dependence)
-    intern_key_stream(c)
+    intern_key_stream(c, order_procs)
 
     for b in broken:
         c.broken_no_input('proof', b, dict(detail=b))
@@ -1283,18 +1360,47 @@ def route_stream(c, rng, n):
 
 # ---------------------------------------------------------------- canonical ints
 
-def gen_canon_cases(rng, n):
+def mem_order(arr):
+    """'>' if the items of `arr` are stored most significant byte first"""
+    bo = arr.dtype.byteorder
+    return '>' if bo == '>' or (bo == '=' and sys.byteorder == 'big') else '<'
+
+
+def gen_canon_cases(rng, n, byteorders='<'):
     cases = []
+    dts = ['|i1', '<i2', '<i4', '<i8', '|u1', '<u2', '<u4', '<u8']
+    if '>' in byteorders: dts += [d.replace('<', '>') for d in dts if d[0] == '<']
     for _ in range(n):
-        dt = rng.choice(['|i1', '<i2', '<i4', '<i8', '|u1', '<u2', '<u4', '<u8'])
+        dt = rng.choice(dts)
         info = numpy.iinfo(dt)
         k = rng.choice([0, 1, 2, 3, 5])
-        vals = [rng.choice([0, 1, info.min, info.max, info.max // 2 + 1, rng.randint(info.min, info.max), rng.randint(-3, 3) if info.min < 0 else rng.randint(0, 3)]) for _ in range(k)]
+        pool = [0, 1, info.min, info.max, info.max // 2 + 1, rng.randint(info.min, info.max), rng.randint(-3, 3) if info.min < 0 else rng.randint(0, 3)]
+        if len(byteorders) > 1: pool += G.int_pool(rng, numpy.dtype(dt).kind, numpy.dtype(dt).itemsize)     # byte-asymmetric patterns and their byte-reversed siblings
+        vals = [rng.choice(pool) for _ in range(k)]
         arr = numpy.array(vals, dtype=dt)
         if k >= 2 and rng.random() < .3: arr = arr.reshape(1, k)
         w = arr.dtype.itemsize
-        items = [arr.reshape(-1)[i:i + 1].tobytes() for i in range(arr.size)]
+        items = [arr.reshape(-1)[i:i + 1].tobytes() for i in range(arr.size)]     # memory order of each item
         cases.append(('s' if arr.dtype.kind == 'i' else 'u', w, items, arr))
+    return cases
+
+
+# ---------------------------------------------------------------- canonical keyword tuple
+
+KW_NAMES = list(dict.fromkeys(G.EXTRA_NAMES + ['aa', 'ab', 'ba', 'B', 'Z', 'z9', 'k', 'k1', 'k_', '\u00e4', '\u00df', '\uff5a', '\U0001d465', '\u65e5\u672c', 'x' * 40]))
+
+
+def gen_kwcanon_cases(rng, n):
+    """(class, keywords in the caller's order, items as `BoundArguments.kwargs` lists them: keyword-only parameter first, then the collected ones in the caller's order)"""
+    cases = []
+    for _ in range(n):
+        cls = rng.choice([ImmOpts, SingOpts])
+        names = rng.sample(KW_NAMES, rng.choice([0, 1, 2, 2, 3, 3, 4, 5, 6, 8]))
+        order = [(nm, rng.randint(2, 99)) for nm in names]
+        if rng.random() < .5: order.insert(rng.randrange(len(order) + 1), ('k0', rng.randint(2, 99)))
+        k0 = dict(order).get('k0', 1)
+        bound = [('k0', k0)] + [(nm, v) for nm, v in order if nm != 'k0']
+        cases.append((cls, order, bound))
     return cases
 
 
@@ -1409,15 +1515,18 @@ def _enable_cache(ncache, sub):
 
 # ---------------------------------------------------------------- interning key (Python ==) vs hash identification
 
-def intern_key_stream(c):
+def intern_key_stream(c, order_procs):
     """Values that are == as dictionary keys (1 == 1.0 == True, 0.0 == -0.0) are conflated by the intern tables although
     nutils_hash distinguishes them: the hash of `C(1)` then depends on which ==-equal instance happens to be alive."""
     res = {}
-    for first in ('none', 'float-first', 'bool-first'):
-        p = subprocess.run([sys.executable, '-c', 'import nvh.c17 as m; m.sub_main()', '0', '0', 'intern-order', first], stdout=subprocess.PIPE, stderr=subprocess.PIPE, text=True, timeout=600)
+    for first, p in order_procs.items():
+        try:
+            o, e = p.communicate(timeout=600)
+        except subprocess.TimeoutExpired:
+            raise Infra('intern-order subprocess timed out')
         if p.returncode != 0:
-            raise Infra('intern-order subprocess failed: ' + p.stderr[-1500:])
-        res[first] = p.stdout.split()
+            raise Infra('intern-order subprocess failed: ' + e[-1500:])
+        res[first] = o.split()
     base = res['none']
     dep = {k: v for k, v in res.items() if v != base}
     # the other direction: arguments that are hash-identical but not == (NaN objects) are not interned together
@@ -1431,6 +1540,15 @@ def intern_key_stream(c):
     c.obligation('prop:hash-independent-of-construction-history', (not dep) or known, 'oracle',
                  'evaluable.Sinc(arg, 1) and a DataClass C(1), built after C(1.0) / C(True) or alone, in separate processes'
                  + (' [history dependence observed: exactly the open known finding intern-key-python-equality, reported as KNOWN-FINDING]' if dep and known else ''))
+    # every open entry of known_findings.json for C17 is re-run from its recorded minimal input (above: `D(1)` built after
+    # `D(1.0)` / `D(True)` resp. alone, each in a fresh process) and reported; silent once it no longer reproduces
+    for entry in c.findings:
+        if entry.get('status') != 'open': continue
+        if entry.get('signature') == 'intern-key-python-equality':
+            c.report_known_still_failing(entry, bool(dep))
+        else:
+            c.log('note: open known finding %r has no recorded input in nvh/c17.py (not re-run)' % entry.get('id'))
+            c.count('known_finding_without_recorded_input')
     if dep:
         c.failing_input('intern-key-python-equality',
                         'interned types key their table on Python == of the arguments (1 == 1.0 == True): the object and nutils hash obtained from `C(1)` depend on whether an ==-equal instance of another type is alive',
